@@ -21,6 +21,47 @@ type crashOp struct {
 	BIdx    int    // event index of the B marker (-1 = never started)
 	EIdx    int    // event index of the E marker (-1 = never acknowledged)
 	Invalid bool   // a Put/PutBytes that the documented API must reject
+	Inner   []crashInner // putmany: the calls made between the two markers of the op, in order
+	InKeys  []string     // putmany: the keys (hex) the inner calls index into
+}
+
+// crashInner: one call of a bulk op (putmany): Put / PutBytes / Delete / DeleteBytes of a key of the op's key list
+type crashInner struct {
+	Key uint8  // index into InKeys
+	Del bool
+	Str bool   // string flavour
+	Val string // hex of the value (puts)
+}
+
+// crashBulkSeq: the calls of `putmany <seed> <count> <delpct> <vmax> <keys>`; parent (reference) and child (execution)
+// derive them from the same arguments
+func crashBulkSeq(seed uint64, count, delPct, vmax, nkeys int) []crashInner {
+	r := NewRng(seed, 0x62756c6b)
+	out := make([]crashInner, count)
+	var vals [256]string // one-byte values are shared
+	for i := range out {
+		x := r.Next()
+		in := crashInner{Key: uint8(x % uint64(nkeys)), Del: int((x>>8)%100) < delPct, Str: (x>>16)&1 == 1}
+		if !in.Del {
+			n := 1 + int((x>>20)%uint64(vmax))
+			y := r.Next()
+			if n == 1 {
+				b := byte(y)
+				if vals[b] == "" {
+					vals[b] = hex.EncodeToString([]byte{b})
+				}
+				in.Val = vals[b]
+			} else {
+				v := make([]byte, n)
+				for j := range v {
+					v[j] = byte(y >> (8 * uint(j%8)))
+				}
+				in.Val = hex.EncodeToString(v)
+			}
+		}
+		out[i] = in
+	}
+	return out
 }
 
 func (o *crashOp) ok() bool { return o.Result == "ok" || strings.HasPrefix(o.Result, "ok ") }
@@ -642,6 +683,192 @@ func crashGenBigRecordSession(seed uint64, idx int, tier, flavour string) *crash
 	return s
 }
 
+// crashSmallRecordsSeed derives the THIRD random stream (see crashBigRecordSeed)
+const crashSmallRecordsSeed = 0x736d616c6c726563
+
+// putMany adds a bulk op: count Put / PutBytes / Delete / DeleteBytes calls with keys of the universe and values of
+// 1..vmax bytes, made back to back between one pair of markers (the system calls of 200000 marker lines would take
+// longer than the session).  Returns an estimate of the log bytes the calls produce (record header + payload).
+func (g *crashGen) putMany(count, delPct, vmax int) int {
+	g.seedCtr++
+	seed := g.r.Next()%1000000007 + g.seedCtr
+	o := g.add("putmany", fmt.Sprintf("putmany %d %d %d %d %s", seed, count, delPct, vmax, strings.Join(g.s.Keys, ",")))
+	o.Inner, o.InKeys, o.Len = crashBulkSeq(seed, count, delPct, vmax, len(g.s.Keys)), g.s.Keys, count
+	est := 0
+	for _, in := range o.Inner {
+		k := len(o.InKeys[in.Key]) / 2
+		if in.Del {
+			g.memKeys[o.InKeys[in.Key]] = true
+			delete(g.current, o.InKeys[in.Key])
+			est += 11 + 2 + 4 + k
+		} else {
+			g.memKeys[o.InKeys[in.Key]] = true
+			g.current[o.InKeys[in.Key]] = true
+			est += 11 + 2 + 6 + k + len(in.Val)/2
+		}
+	}
+	return est
+}
+
+// crashGenSmallRecordsSession: the session every run of the flavour async ends with (index n+1, in the quick tier too).
+// The asynchronous log hands its 4 MiB buffer to the kernel whenever it is full, wherever in a record that is: with
+// records of some twenty bytes (keys and values of 1..3 bytes, about half of every record is its header) the file
+// ends inside a record HEADER after such a write about as often as inside a payload, at a position that depends on
+// every size drawn before.  A round = two incompressible values that fill most of what is left of the buffer, then
+// some thousand small records across the next 4 MiB boundary of the log file; rounds follow each other in the same
+// log file (boundaries at 8 + k * 4 MiB) or after a rotation (new file).  Tier thorough starts with 4 MiB of small
+// records only (about 200000 calls).  Every image taken right after a buffer write is re-opened.
+func crashGenSmallRecordsSession(seed uint64, idx int, tier, flavour string) *crashSession {
+	r := NewRng(seed^crashSmallRecordsSeed, uint64(idx))
+	s := &crashSession{Idx: idx, Flavour: flavour, Profile: "smallrecords", MaxStr: 4*1024*1024 + 70000}
+	g := &crashGen{r: r, tier: tier, s: s, current: map[string]bool{}, memKeys: map[string]bool{}, lastRot: map[string]bool{}}
+	nk := 5 + r.Intn(6)
+	seen := map[string]bool{}
+	for len(s.Keys) < nk {
+		k := r.Bytes(1 + r.Intn(3))
+		for i := range k {
+			if r.Chance(60) {
+				k[i] = "abcdefghijklmnopqrstuvwxyz"[int(k[i])%26]
+			}
+		}
+		if h := hex.EncodeToString(k); !seen[h] {
+			seen[h] = true
+			s.Keys = append(s.Keys, h)
+		}
+	}
+	async := flavour == "async"
+	g.add("open", g.openLine(async, "bigvalue")) // memstore limit 1 GiB: no rotation by size
+	const buf = 4 * 1024 * 1024
+	avg := func(delPct, vmax int) int { return 11 + 2 + ((100-delPct)*(6+2+(1+vmax)/2)+delPct*(4+2))/100 }
+	draw := func() (int, int) { return []int{0, 10, 25, 50}[r.Intn(4)], 1 + r.Intn(3) }
+	off := 0 // estimate of the bytes logged into the current log file (behind its 8 byte header)
+	small := func() {
+		n0 := len(s.Ops)
+		g.put("small")
+		o := s.Ops[n0]
+		off += 11 + 2 + 6 + len(o.Key)/2 + o.Len
+	}
+	if tier == "thorough" {
+		// small records only up to the first boundary
+		for i := r.Intn(3); i > 0; i-- {
+			small()
+		}
+		delPct, vmax := draw()
+		off += g.putMany((buf+30000+r.Intn(100000))/avg(delPct, vmax), delPct, vmax)
+		for off < buf+20000 {
+			off += g.putMany(20000, delPct, vmax)
+		}
+	}
+	rounds := 6
+	if tier == "thorough" {
+		rounds = 6 + r.Intn(5)
+	}
+	for round := 0; round < rounds; round++ {
+		if round > 0 && r.Chance(50) {
+			// a new log file; the table of the rotated memstore is written meanwhile or before
+			g.rotate()
+			if r.Chance(50) {
+				g.waitflush()
+			}
+			off = 0
+		}
+		// most of what is left of the buffer: two incompressible values ...
+		room := buf - off%buf - (25000 + r.Intn(75000))
+		for room < 300000 {
+			room += buf
+		}
+		a := room/2 - r.Intn(100000)
+		for _, n := range []int{a, room - a} {
+			g.seedCtr++
+			vs := r.Next()%1000000007 + g.seedCtr
+			k := g.key()
+			kind := "put"
+			if r.Chance(35) {
+				kind = "putb"
+			}
+			tok := fmt.Sprintf("g%d:%d", vs, n)
+			o := g.add(kind, kind+" "+k+" "+tok)
+			o.Key, o.KeyTok, o.ValTok, o.Digest, o.Len = k, k, tok, crashDigest(crashGenBytes(vs, n)), n
+			g.current[k] = true
+			g.memKeys[k] = true
+			off += n + 130
+			if r.Chance(30) {
+				small()
+			}
+		}
+		// ... and small records across the boundary
+		delPct, vmax := draw()
+		gap := buf - off%buf
+		off += g.putMany((gap+12000+r.Intn(30000))/avg(delPct, vmax), delPct, vmax)
+	}
+	switch r.Intn(3) {
+	case 0:
+		// the process ends with the rest of the log in its buffer
+	case 1:
+		g.put("small")
+		g.get()
+	default:
+		g.add("close", "close")
+		g.add("open", g.openLine(async, "bigvalue"))
+		g.get()
+		g.waitflush()
+	}
+	return s
+}
+
+// crashDirectWalSeed derives the FOURTH random stream (see crashBigRecordSeed)
+const crashDirectWalSeed = 0x6469726563747761
+
+// crashGenDirectWalSession: the sessions every run of the flavour wal ends with (indices n and n+1, in the quick tier
+// too): a bare log whose writer factory builds direct-I/O writers (recordio.DirectIO(), block buffer of 4096 / 8192
+// bytes): records collect in the block buffer of the process, whole blocks are written, the zero padded rest on
+// Rotate / Close.  Mixes of Append and AppendSync (which such a writer may refuse: then nothing is claimed for the
+// record), records of some hundred bytes so that blocks are written while the session runs, kill at any instant.
+func crashGenDirectWalSession(seed uint64, idx int, tier string) *crashSession {
+	r := NewRng(seed^crashDirectWalSeed, uint64(idx))
+	s := &crashSession{Idx: idx, Flavour: "wal", Profile: "directio", Bare: true, MaxStr: 4*1024*1024 + 70000}
+	g := &crashGen{r: r, tier: tier, s: s, current: map[string]bool{}, memKeys: map[string]bool{}, lastRot: map[string]bool{}}
+	buf := []int{4096, 4096, 8192}[r.Intn(3)]
+	maxSize := []int{3000, 9000, 1 << 20, 128 << 20}[r.Intn(4)]
+	g.add("walopen", fmt.Sprintf("walopen %d %d direct", maxSize, buf))
+	n := 10 + r.Intn(16)
+	if tier == "thorough" {
+		n = 20 + r.Intn(60)
+	}
+	for i := 0; i < n; i++ {
+		if r.Chance(10) {
+			g.add("walrotate", "walrotate")
+			continue
+		}
+		kind := "append"
+		if r.Chance(45) {
+			kind = "appendsync"
+		}
+		var b []byte
+		tok := ""
+		switch y := r.Intn(100); {
+		case y < 5:
+			tok, b = ".", []byte{}
+		case y < 8:
+			tok, b = "-", []byte{} // a nil record replays as an empty one
+		case y < 35:
+			b = r.Bytes(1 + r.Intn(50))
+		default:
+			b = r.Bytes(100 + r.Intn(buf/2-200))
+		}
+		if len(b) > 0 {
+			b[0] = byte(i)
+			tok = hex.EncodeToString(b)
+		}
+		o := g.add(kind, kind+" "+tok)
+		o.ValTok, o.Digest, o.Len = tok, crashDigest(b), len(b)
+	}
+	if r.Chance(50) {
+		g.add("walclose", "walclose")
+	}
+	return s
+}
+
 // bare write-ahead log sessions (C07)
 func (g *crashGen) genWal(rank int) {
 	r, s := g.r, g.s
@@ -767,6 +994,10 @@ func (s crashRefState) get(k string) string {
 // applyOp applies an accepted mutation
 func (s crashRefState) applyOp(o *crashOp) {
 	switch {
+	case o.Kind == "putmany":
+		for i := range o.Inner {
+			s.applyInner(o, i)
+		}
 	case o.isPut() && o.Invalid:
 		if o.Key != "" {
 			s.wild[o.Key] = true
@@ -782,4 +1013,17 @@ func (s crashRefState) applyOp(o *crashOp) {
 	}
 }
 
-func (o *crashOp) mutation() bool { return o.isPut() || o.isDel() }
+// applyInner applies call i of a bulk op and returns the key it touched
+func (s crashRefState) applyInner(o *crashOp, i int) string {
+	in := o.Inner[i]
+	k := o.InKeys[in.Key]
+	if in.Del {
+		delete(s.m, k)
+	} else {
+		s.m[k] = in.Val // crashDigest of a value of at most 48 bytes is its hex form
+	}
+	delete(s.wild, k)
+	return k
+}
+
+func (o *crashOp) mutation() bool { return o.isPut() || o.isDel() || o.Kind == "putmany" }
